@@ -128,3 +128,69 @@ def rich_world(seed, n_chroms=6, genes_per_chrom=3, groups=3, multimappers=True,
         r.tags = [("RG", "g%d" % (i % groups))]
         r.file_idx = i % 2
     return w
+
+
+def split_locus_world(seed, hidden=True):
+    """A long gene (> 75 kb) processed in several regions: isoform A uses exons of the first ~36 kb, isoform B exons of the
+    last ~36 kb, isoform C spans everything; coverage is dense on both sides and a single C read bridges the valley, so the
+    cluster is cut at a coverage valley that lies more than 128 bins after its start."""
+    w = World(seed)
+    rng = w.rng
+    w.add_chrom("chr1", 120000)
+    w.add_chrom("chr2", 30000)
+    pos = 3000
+    exons = []
+    p = pos
+    for i in range(16):
+        el = rng.randint(150, 300)
+        exons.append((p, p + el - 1))
+        p += el + rng.randint(4200, 5200)
+    g = Gene("L1", "chr1", "+")
+    a = exons[:7]
+    b = exons[9:]
+    g.transcripts.append(Transcript("L1.t1", "L1", "chr1", "+", exons, True, "full"))
+    g.transcripts.append(Transcript("L1.t2", "L1", "chr1", "+", a, True, "left-part"))
+    g.transcripts.append(Transcript("L1.t3", "L1", "chr1", "+", b, True, "right-part"))
+    if hidden:
+        g.hidden.append(Transcript("L1.h1", "L1", "chr1", "+", a[:2] + a[3:], False, "nnic_skip"))
+        g.hidden.append(Transcript("L1.h2", "L1", "chr1", "+", b[:3] + b[4:], False, "nnic_skip"))
+    for t in g.transcripts + g.hidden:
+        for intr in t.introns:
+            w.plant_sites("chr1", intr, "+")
+    w.genes.append(g)
+    g2, _ = w.make_gene("G2_1", "chr2", 2000, "-", n_exons=4, n_iso=2)
+    for t in (g.transcripts[1], g.transcripts[2]):
+        for _ in range(40):
+            w.read_from_transcript(t, mode="full", jitter=2, polya=rng.random() < 0.7)
+    for t in g.hidden:
+        for _ in range(12):
+            w.read_from_transcript(t, mode="full", jitter=0, polya=True)
+    w.read_from_transcript(g.transcripts[0], mode="full", jitter=0, polya=True)
+    for t in g2.transcripts:
+        for _ in range(6):
+            w.read_from_transcript(t, mode="full", jitter=1, polya=True)
+    return w
+
+
+def make_nic_gene(w, gid, chrom, start, strand):
+    """Annotated: backbone, skip(i), skip(j); hidden: skip(i) and skip(j) together = new combination of annotated introns (.nic)."""
+    rng = w.rng
+    n = rng.randint(6, 8)
+    bb = []
+    pos = start
+    for k in range(n):
+        el = rng.randint(130, 300)
+        bb.append((pos, pos + el - 1))
+        pos += el + rng.randint(350, 900)
+    i = rng.randint(1, n - 4)
+    j = rng.randint(i + 2, n - 2)
+    g = Gene(gid, chrom, strand)
+    g.transcripts.append(Transcript(gid + ".t1", gid, chrom, strand, bb, True, "backbone"))
+    g.transcripts.append(Transcript(gid + ".t2", gid, chrom, strand, bb[:i] + bb[i + 1:], True, "skip"))
+    g.transcripts.append(Transcript(gid + ".t3", gid, chrom, strand, bb[:j] + bb[j + 1:], True, "skip"))
+    g.hidden.append(Transcript(gid + ".h1", gid, chrom, strand, [e for k, e in enumerate(bb) if k not in (i, j)], False, "nic"))
+    for t in g.transcripts + g.hidden:
+        for intr in t.introns:
+            w.plant_sites(chrom, intr, strand)
+    w.genes.append(g)
+    return g, bb[-1][1]
